@@ -37,21 +37,28 @@ def obsOf (i : Input) (evs : List Ev) (cons : Nat) (pub closed : Bool) : Obs :=
       sidOk := true,        -- `newResponse` always sets the Session field to `s.lsession`
       consumers := cons, published := pub, closed := closed }
 
-/-- the observations of a whole RTSP / ws-rtsp dialogue -/
+/-- the observations of a whole RTSP / ws-rtsp dialogue.  The Session header is on a response iff
+    `newResponse` puts it there (`cfg.sidCarried`, a source fact); media can precede the response to a
+    request only if the session held a consumer writing to this connection when the request was made
+    (the only writer of media is the attached `tcpConsumer`). -/
 def trace (cfg : Cfg) : Sess → List Input → List Obs
   | _, [] => []
   | s, i :: is =>
     let (s', evs) := stepInput cfg s i
-    obsOf i evs s'.consumers s'.pusher s'.closed :: trace cfg s' is
+    { obsOf i evs s'.consumers s'.pusher s'.closed with sidOk := cfg.sidCarried, media := s.role == .tcp }
+      :: trace cfg s' is
 
 def WSess.consumers (s : WSess) : Nat := if s.attached then 1 else 0
 
-/-- the observations of a whole WSP dialogue -/
-def wtrace (gate : Status → Method → Bool) : WSess → List Input → List Obs
+/-- the observations of a whole WSP dialogue; media flows on the data channel while the session is
+    attached to the stream, at the beginning of the request or (PLAY attaches before it answers) at
+    its end -/
+def wtrace (gate : Status → Method → Bool) (sid : Bool) : WSess → List Input → List Obs
   | _, [] => []
   | s, i :: is =>
     let (s', evs) := wstepInput gate s i
-    obsOf i evs s'.consumers false s'.closed :: wtrace gate s' is
+    { obsOf i evs s'.consumers false s'.closed with sidOk := sid, media := s.attached || s'.attached }
+      :: wtrace gate sid s' is
 
 /-- the final state of a dialogue -/
 def final (cfg : Cfg) : Sess → List Input → Sess
@@ -85,8 +92,9 @@ def allMethods : List Method :=
 def gateEq (g h : Status → Method → Bool) : Bool :=
   allStatus.all fun st => allMethods.all fun m => g st m == h st m
 
-/-- the configuration answers a repeated PLAY, only enters `playing` on a 200, and gates as the reference table -/
+/-- the configuration answers a repeated PLAY, only enters `playing` on a 200, gates as the reference
+    table, and puts the session id on every response -/
 def cfgOk (cfg : Cfg) : Bool :=
-  cfg.playAgainResponds && cfg.playingNeedsOk && gateEq cfg.gate refGate
+  cfg.playAgainResponds && cfg.playingNeedsOk && gateEq cfg.gate refGate && cfg.sidCarried
 
 end IpcHub.Rtsp
